@@ -5,7 +5,7 @@ import json, os, subprocess, sys, shutil, re
 from concurrent.futures import ThreadPoolExecutor
 
 VERIF = os.path.dirname(os.path.dirname(os.path.abspath(__file__)))
-props = ["C%02d" % i for i in range(1, 21)]
+props = os.environ.get("PROPS", "").split() or ["C%02d" % i for i in range(1, 21)]
 CORPUS = os.environ.get("CORPUS", "seeded")   # "seeded" (must be reported) or "refactors" (must stay silent)
 seeds = sorted(d for d in os.listdir(os.path.join(VERIF, CORPUS)) if os.path.isdir(os.path.join(VERIF, CORPUS, d)))
 workers = int(sys.argv[1]) if len(sys.argv) > 1 else 4
@@ -50,7 +50,11 @@ def main():
     table = dict(results)
     path = os.path.join(VERIF, CORPUS, "MATRIX.json")
     old = json.load(open(path)) if os.path.exists(path) else {}
-    old.update(table)
+    for k_, v_ in table.items():
+        if isinstance(old.get(k_), dict) and isinstance(v_, dict) and 'error' not in v_ and os.environ.get('PROPS'):
+            old[k_].update(v_)
+        else:
+            old[k_] = v_
     json.dump(old, open(path, "w"), indent=1, sort_keys=True)
     missed = [s for s, r in old.items() if isinstance(r, dict) and "error" not in r and not r.get(s.split("-")[0], {}).get("rc")]
     if CORPUS == "seeded":
